@@ -10,7 +10,7 @@ pub fn def() -> PropertyDef {
     PropertyDef {
         id: "C09",
         level: "exploration",
-        scenarios: vec![Box::new(RunStub)],
+        scenarios: vec![Box::new(RunStub), Box::new(RealHistory)],
         assumptions: vec!["the parallel iterator is the simulator's work-claiming stub inside simulations (real rayon pools are run as a fidelity cross-check)"],
     }
 }
@@ -160,5 +160,234 @@ impl Scenario for RunStub {
     }
     fn components(&self) -> Value {
         json!({"real": ["ChainRunner::run", "run_chain", "ndarray stack"], "stub": ["counting MarkovChain/HasChains", "parallel iterator = simulated workers (90%) / real rayon (10%)"]})
+    }
+}
+
+// ---------------------------------------------------------------------------------------------
+// real samplers: call histories. Consecutive runs == slices of one long run (MH, Gibbs, HMC);
+// run() == manual stepping through the public per-transition API; NUTS::run == its chains run
+// individually; no transition more than needed (counted from the draw trace for NUTS/HMC).
+// ---------------------------------------------------------------------------------------------
+pub struct RealHistory;
+
+impl Scenario for RealHistory {
+    fn name(&self) -> &'static str {
+        "run_real_history"
+    }
+    fn runs(&self, tier: Tier) -> u64 {
+        tier.pick(420, 24_000)
+    }
+    fn generate(&self, g: &mut Gen, _tier: Tier, _idx: u64) -> Value {
+        use crate::props::c07::gen_spec;
+        let spec = gen_spec(g, crate::zoo::KINDS);
+        let kind = ps(&spec, "kind").to_string();
+        let heavy = kind.starts_with("hmc") || kind.starts_with("nuts");
+        let nuts = kind.starts_with("nuts");
+        let n_calls = g.usize(1, 3);
+        let calls: Vec<Value> = (0..n_calls)
+            .map(|_| {
+                let (c, d) = if heavy { (g.usize(0, 5), g.usize(0, 4)) } else { (g.usize(0, 25), g.usize(0, 15)) };
+                json!([if nuts { c.max(1) } else { c }, d])
+            })
+            .collect();
+        let nc = pus(&spec, "n_chains");
+        json!({"spec": with(&spec, "seed", json!(g.range(0, 1u64 << 40).to_string())), "calls": calls, "real_rayon": g.bool(1, 8), "sim": gen_sim(g, nc + 1, false)})
+    }
+    fn execute(&self, params: &Value, want_sample: bool) -> Outcome {
+        use crate::props::c07::{kind_family, spec_of};
+        use crate::zoo::*;
+        let mut o = Outcome::default();
+        let spec = spec_of(&params["spec"]);
+        let fam = kind_family(&spec.kind);
+        let nuts = is_nuts(&spec.kind);
+        let calls: Vec<(usize, usize)> = params["calls"].as_array().unwrap().iter().map(|c| (c[0].as_u64().unwrap() as usize, c[1].as_u64().unwrap() as usize)).collect();
+        let real = pb(params, "real_rayon");
+        // (1) the history under test: run() calls on one sampler, under simulated workers / a real pool
+        let sp = spec.clone();
+        let cl = calls.clone();
+        let body = move || -> Result<(Vec<(Vec<u64>, [usize; 3])>, Vec<Vec<u64>>, Vec<usize>), String> {
+            let mut s = build(&sp)?;
+            let mut outs = vec![];
+            let mut states = vec![];
+            let mut steps = vec![];
+            for (c, d) in &cl {
+                mcmc_sim::trace::start();
+                let r = s.run(*c, *d, Mode::Run)?;
+                let ev = mcmc_sim::trace::stop();
+                // transitions performed in this call, from the draw trace (HMC: one hmc_momentum per step; NUTS: one nuts_step_begin per transition per chain)
+                steps.push(ev.iter().filter(|e| e.role == "hmc_momentum" || e.role == "nuts_step_begin").count());
+                outs.push((r.bits, r.shape));
+                states.push(s.state_bits());
+            }
+            Ok((outs, states, steps))
+        };
+        let got;
+        if real {
+            let _ = mcmc_sim::sim::take_last_panic();
+            match std::panic::catch_unwind(std::panic::AssertUnwindSafe(body)) {
+                Ok(r) => got = r,
+                Err(_) => {
+                    let m = mcmc_sim::sim::take_last_panic().unwrap_or_default();
+                    let loc = m.rsplit(" @ ").next().unwrap_or("").to_string();
+                    o.violate("panic", &format!("{fam}::run:panic@{loc}"), m);
+                    return o;
+                }
+            }
+            o.hash = str_hash(&params.to_string());
+            o.nontrivial = true;
+            o.count("probe_real_rayon_runs", 1);
+        } else {
+            let cfg = sim_cfg(&params["sim"]);
+            let (rep, out) = run_sim(&cfg, body);
+            o.sim_time_ns = rep.sim_time_ns;
+            o.hash = mix(mix(rep.sched_hash, rep.event_hash), str_hash(&params.to_string()));
+            o.nontrivial = rep.context_switches >= 2 || spec.n_chains == 1 || fam == "HMC";
+            if want_sample {
+                o.sample = Some(report_json(&rep));
+                o.schedule = Some(rep.schedule.clone());
+            }
+            if sim_failure_violation(&mut o, &rep, &format!("{fam}::run")) {
+                return o;
+            }
+            match out {
+                Some(x) => got = x,
+                None => {
+                    o.harness_error = Some("no value".into());
+                    return o;
+                }
+            }
+        }
+        let (outs, states, steps) = match got {
+            Ok(x) => x,
+            Err(e) => {
+                if e.contains("HARNESS-ERROR") {
+                    o.harness_error = Some(e);
+                } else {
+                    o.violate("run_err", &format!("{fam}::run:Err"), e);
+                }
+                return o;
+            }
+        };
+        // (2) reference A: the same history on an identically built sampler, sequentially
+        //     (NUTS: its chains built and run individually with the documented seeds)
+        let reference = (|| -> Result<Vec<RunOut>, String> {
+            let mut s = build(&spec)?;
+            calls.iter().map(|(c, d)| s.run(*c, *d, Mode::Sequential)).collect()
+        })();
+        let reference = match reference {
+            Ok(r) => r,
+            Err(e) => {
+                o.harness_error = Some(format!("reference failed: {e}"));
+                return o;
+            }
+        };
+        let mut dim = 0;
+        for (i, ((bits, shape), r)) in outs.iter().zip(reference.iter()).enumerate() {
+            dim = shape[2];
+            o.work += (spec.n_chains * (calls[i].0 + calls[i].1)) as u64 * 2;
+            if *shape != [spec.n_chains, calls[i].0, r.shape[2]] {
+                o.violate("shape", &format!("{fam}::run:shape"), format!("{} call {i} run({}, {}) returned shape {:?}", spec.kind, calls[i].0, calls[i].1, shape));
+                return o;
+            }
+            if *bits != r.bits {
+                let what = if nuts { "its chains run individually (seeds seed+c+1)" } else { "the chains run one after the other" };
+                o.violate("differs_from_individual_chains", &format!("{fam}::run:differs-from-chains-run-individually"), format!("{} call {i} run({}, {}) differs from {what}", spec.kind, calls[i].0, calls[i].1));
+                return o;
+            }
+        }
+        // (3) the sampler is left at the last returned state (NUTS too: its last row is its position)
+        for (i, ((bits, shape), st)) in outs.iter().zip(states.iter()).enumerate() {
+            if shape[1] == 0 {
+                continue;
+            }
+            for c in 0..shape[0] {
+                let last = &bits[(c * shape[1] + shape[1] - 1) * dim..(c * shape[1] + shape[1]) * dim];
+                if last != &st[c * dim..(c + 1) * dim] {
+                    o.violate("left_state", &format!("{fam}::run:left-state"), format!("{} after call {i} chain {c} is not left at its last returned draw", spec.kind));
+                    return o;
+                }
+            }
+        }
+        // (4) MH / Gibbs / HMC: one long run and manual stepping reproduce the history
+        if !nuts {
+            let total: usize = calls.iter().map(|(c, d)| c + d).sum();
+            let long = (|| -> Result<RunOut, String> { build(&spec)?.run(total, 0, Mode::Sequential) })();
+            match long {
+                Err(e) => o.harness_error = Some(format!("long run failed: {e}")),
+                Ok(long) => {
+                    let mut off = 0;
+                    for (i, ((bits, shape), (c, d))) in outs.iter().zip(calls.iter()).enumerate() {
+                        off += d;
+                        for ch in 0..shape[0] {
+                            for k in 0..*c {
+                                let a = &bits[(ch * c + k) * dim..(ch * c + k + 1) * dim];
+                                let b = &long.bits[(ch * total + off + k) * dim..(ch * total + off + k + 1) * dim];
+                                if a != b {
+                                    o.violate("continuation", &format!("{fam}::run:continuation"), format!("{} call {i}: draw {k} of chain {ch} is not transition {} of one long run", spec.kind, off + k + 1));
+                                    return o;
+                                }
+                            }
+                        }
+                        off += c;
+                    }
+                    o.count("probe_continuation_checked", 1);
+                }
+            }
+            // manual stepping: after total transitions the state equals the state the history left
+            if let Ok(mut s) = build(&spec) {
+                if s.manual_steps(total).is_some() {
+                    if let Some(last) = states.last() {
+                        if s.state_bits() != *last {
+                            o.violate("transition_count", &format!("{fam}::run:transitions"), format!("{}: after the history {:?} the sampler is not where {total} manual transitions lead", spec.kind, calls));
+                        }
+                    }
+                }
+            }
+        }
+        // (5) transitions performed, from the draw trace: HMC n_collect + n_discard, NUTS n_collect + n_discard - 1 per chain
+        for (i, (c, d)) in calls.iter().enumerate() {
+            if real || fam == "MH" || fam == "Gibbs" {
+                break; // the trace sink is per OS thread: only meaningful inside the one-thread simulation
+            }
+            let want = if nuts { (c + d).saturating_sub(1) * spec.n_chains } else { c + d };
+            if steps[i] != want {
+                o.violate("transition_count", &format!("{fam}::run:transitions"), format!("{} call {i} run({c}, {d}) performed {} transitions, expected {want}", spec.kind, steps[i]));
+            }
+        }
+        o.count("probe_multi_call_history", (calls.len() >= 2) as u64);
+        o.count(&format!("probe_family_{fam}"), 1);
+        o
+    }
+    fn shrink(&self, p: &Value) -> Vec<Value> {
+        let mut out: Vec<Value> = crate::props::c07::shrink_spec(&p["spec"]).into_iter().map(|s| with(p, "spec", s)).collect();
+        let calls = p["calls"].as_array().unwrap();
+        let nuts = ps(&p["spec"], "kind").starts_with("nuts");
+        if calls.len() > 1 {
+            out.push(with(p, "calls", Value::Array(calls[..calls.len() - 1].to_vec())));
+            out.push(with(p, "calls", Value::Array(calls[1..].to_vec())));
+        }
+        for (i, c) in calls.iter().enumerate() {
+            for slot in [0usize, 1] {
+                let cur = c[slot].as_u64().unwrap();
+                let lo = if slot == 0 && nuts { 1 } else { 0 };
+                for cand in [lo, cur / 2, cur.saturating_sub(1)] {
+                    if cand < cur && cand >= lo {
+                        let mut cs = calls.clone();
+                        let mut pair = c.as_array().unwrap().clone();
+                        pair[slot] = json!(cand);
+                        cs[i] = Value::Array(pair);
+                        out.push(with(p, "calls", Value::Array(cs)));
+                    }
+                }
+            }
+        }
+        shrink_sim(p, &mut out);
+        out
+    }
+    fn rule(&self) -> &'static str {
+        "one run = a history of 1-3 run() calls on a real seeded sampler (10 kinds) under W simulated workers and a seeded schedule (1/8: real rayon); compared with the chains run individually/sequentially, with one long run, with manual stepping, and with the number of transitions in the draw trace; non-trivial = >= 2 context switches (single chain / HMC: any)"
+    }
+    fn components(&self) -> Value {
+        json!({"real": ["MH/Gibbs via ChainRunner::run", "HMC::run", "NUTS::run", "NUTSChain::run"], "stub": ["pool = simulated workers", "harness targets"]})
     }
 }
